@@ -821,15 +821,31 @@ func runC07Dispatch(c *Ctx) {
 		}) == nil
 	// paths from Decode back to Decode that avoid handleFrame exist only via frame==nil (which returns). So none expected.
 	c.Check("C07.B2d", fk+":no-frame-skipped", d.Pos(), noSkip, "every loop iteration that continues passes handleFrame", "the loop can go around without handing the decoded frame to handleFrame (a frame would be dropped)")
+	// the guard says "the buffer is empty" (empty=true) or "the buffer is not empty" (empty=false)
+	lenGuard := func(g Guard, empty bool) bool {
+		bo, ok := g.Cond.(*ssa.BinOp)
+		if !ok || !isZero(bo.Y) {
+			return false
+		}
+		call, ok := bo.X.(*ssa.Call)
+		if !ok || methodName(call.Common()) != "Len" {
+			return false
+		}
+		switch bo.Op {
+		case token.EQL, token.LEQ:
+			return g.True == empty
+		case token.NEQ, token.GTR:
+			return g.True != empty
+		}
+		return false
+	}
 	emptyReturn := func(in ssa.Instruction) bool {
 		if !isReturn(in) {
 			return false
 		}
 		for _, g := range guardsAt(in.Block()) {
-			if bo, ok := g.Cond.(*ssa.BinOp); ok && bo.Op == token.EQL && g.True && isZero(bo.Y) {
-				if call, ok := bo.X.(*ssa.Call); ok && methodName(call.Common()) == "Len" {
-					return true
-				}
+			if lenGuard(g, true) {
+				return true
 			}
 		}
 		return false
@@ -848,12 +864,35 @@ func runC07Dispatch(c *Ctx) {
 	// empty check precedes Decode: buf.Len()==0 → return
 	emptyOK := false
 	for _, g := range guardsAt(d.Block()) {
-		if bo, ok := g.Cond.(*ssa.BinOp); ok && bo.Op == token.EQL && !g.True && isZero(bo.Y) {
-			if call, ok := bo.X.(*ssa.Call); ok && methodName(call.Common()) == "Len" {
-				emptyOK = true
-			}
+		if lenGuard(g, false) {
+			emptyOK = true
 		}
 	}
+	// one stream-level context per frame: the codecs and the stream objects are pooled per context, so decoding the next
+	// frame with the previous frame's context overwrites the frame and the stream just handed to the proxy
+	get := callsIn(fn, false, func(cc *ssa.CallCommon) bool { return methodName(cc) == "Get" && len(cc.Args) > 0 && strings.HasSuffix(typeName(cc.Args[0].Type()), "ContextManager") })
+	fresh := len(get) >= 1
+	for _, gc := range get {
+		_ = gc
+	}
+	if fresh {
+		isGet := func(in ssa.Instruction) bool {
+			for _, gc := range get {
+				if gc.Instr == in {
+					return true
+				}
+			}
+			return false
+		}
+		// no way round the loop from one Decode to the next without a new Get()
+		fresh = existsPath(fn, d, func(in ssa.Instruction) bool { return in == d }, isGet) == nil
+		// and Decode / handleFrame receive the context of that Get
+		dargs := argsOf(d.(ssa.CallInstruction).Common())
+		if len(dargs) == 0 || !isGet(instrOf(dargs[0])) {
+			fresh = false
+		}
+	}
+	c.Check("C07.B2d", fk+":fresh-context-per-frame", d.Pos(), fresh, "ctxManager.Get() is executed for every frame and its result is what Decode receives", "a frame can be decoded with the stream context of the previous frame (Get() is not executed between two Decode calls): codec buffers and stream objects are pooled per context, so the next frame overwrites the frame and the stream just handed to the proxy - with several frames in one read one request is lost and its neighbour is delivered twice")
 	c.Check("C07.B2d", fk+":empty-exit", d.Pos(), emptyOK, "Decode only with a non-empty buffer", "Decode is called on an empty buffer (or the empty check is gone)")
 }
 
@@ -1046,4 +1085,9 @@ func otherSucc(ifi *ssa.If, blk *ssa.BasicBlock) *ssa.BasicBlock {
 		return b.Succs[0]
 	}
 	return nil
+}
+
+func instrOf(v ssa.Value) ssa.Instruction {
+	in, _ := v.(ssa.Instruction)
+	return in
 }
